@@ -645,7 +645,9 @@ class xRFM:
             projection = self._generate_projection_from_M(X.shape[1], Xcov)
         elif self.split_method == 'linear':
             XtX = X.T @ X
-            beta = torch.linalg.solve(XtX + 1e-6 * torch.eye(X.shape[1], device=self.device), X.T @ y)
+            # scale the ridge with XtX: an absolute 1e-6 is below float32 resolution once the entries exceed ~8
+            ridge = 1e-6 * XtX.diagonal().max().clamp_min(1.0)
+            beta = torch.linalg.solve(XtX + ridge * torch.eye(X.shape[1], device=self.device), X.T @ y)
             beta = beta.mean(dim=1)  # probably not the best way to do this
             projection = beta / torch.norm(beta)
         elif 'agop_on_subset' in self.split_method:
